@@ -1,6 +1,6 @@
 SPECIFICATION MCSpec
 CONSTANTS MaxN = 3
-          Ns = {1, 2}
+          Ns = {1, 2, 3}
           MaxEpoch = 2
           FastMode = "acquire"
           SlowMode = "relaxed"
